@@ -215,7 +215,11 @@ class Processor:
                 f"Processor::set_value:  Seeking required node at {yaml_path}."
             )
             found_nodes: int = 0
-            for req_node in self._get_required_nodes(self.data, yaml_path):
+            # Gather first; changing nodes while the document is still being
+            # traversed alters containers that are being iterated.
+            for req_node in list(
+                self._get_required_nodes(self.data, yaml_path)
+            ):
                 found_nodes += 1
                 self._apply_change(yaml_path, req_node, value,
                     value_format=value_format, tag=tag)
